@@ -126,7 +126,7 @@ def scenario(ns, inp):
                     state["shutdown_started"] = True
                     state["shutdown_mode"] = op
                     state["requested"] = 0
-                    d.shutdown(cancel_pending=(op == "shutdown_cancel"), timeout=5)
+                    d.shutdown(cancel_pending=(op == "shutdown_cancel"), timeout=0.35)
 
         s.spawn(controller, "ctl")
         s.run()
